@@ -28,7 +28,7 @@ WILD = {"signal-each", "signal-anything", "signal-everything"}
 
 
 def budget(tier):
-    return {"examples": 1000 if tier == "quick" else 16000, "wall_s": 110 if tier == "quick" else 1500}
+    return {"examples": 1000 if tier == "quick" else 16000, "wall_s": 110 if tier == "quick" else 900}
 
 
 def fresh_types(n):
